@@ -289,7 +289,7 @@ def finish(ctx):
 
 
 # ---------------------------------------------------------------- oracle
-def _compare(ctx, f, want, where):
+def _compare(ctx, f, want, where, quiet=False):
     """Compare atoms, mass, charge, mass fractions of formula *f* with the model atoms *want*
     (key -> Fraction).  Returns a list of problem strings."""
     from ..atoms import key as akey
@@ -300,7 +300,7 @@ def _compare(ctx, f, want, where):
     for a, c in atoms.items():
         k = akey(a)
         got[k] = got.get(k, 0) + c
-    ctx.evaluated(what='atoms')
+    quiet or ctx.evaluated(what='atoms')
     for k in set(got) | set(want):
         w = float(want.get(k, 0))
         g = got.get(k, 0)
@@ -308,20 +308,20 @@ def _compare(ctx, f, want, where):
             problems.append('%s: count of %r is %r, model gives %r' % (where, k, g, w))
             break
         if w:
-            ctx.observe('count.relerr', abs(g - w) / abs(w))
+            quiet or ctx.observe('count.relerr', abs(g - w) / abs(w))
     fl = dict((k, float(c)) for k, c in want.items())
     wmass = sum(c * m.atom_mass(k, me) for k, c in fl.items())
-    ctx.evaluated(what='mass')
-    if not ctx.close(f.mass, wmass, rel=1e-12, name='mass.relerr'):
+    quiet or ctx.evaluated(what='mass')
+    if not ctx.close(f.mass, wmass, rel=1e-12, name=None if quiet else 'mass.relerr'):
         problems.append('%s: mass %r, model gives %r' % (where, f.mass, wmass))
     wq = sum(c * k[2] for k, c in fl.items())
     absq = sum(abs(c * k[2]) for k, c in fl.items())
-    ctx.evaluated(what='charge')
+    quiet or ctx.evaluated(what='charge')
     gq = f.charge
     if not (abs(gq - wq) <= 1e-12 * absq):
         problems.append('%s: charge %r, model gives %r' % (where, gq, wq))
     if wmass > 0:
-        ctx.evaluated(what='mass_fraction')
+        quiet or ctx.evaluated(what='mass_fraction')
         mf = f.mass_fraction
         gmf = {}
         for a, v in mf.items():
@@ -329,7 +329,7 @@ def _compare(ctx, f, want, where):
         bad = None
         for k in set(gmf) | set(fl):
             w = fl.get(k, 0.) * m.atom_mass(k, me) / wmass
-            if not ctx.close(gmf.get(k, 0.), w, rel=1e-12, abs_=1e-300, name='mass_fraction.relerr'):
+            if not ctx.close(gmf.get(k, 0.), w, rel=1e-12, abs_=1e-300, name=None if quiet else 'mass_fraction.relerr'):
                 bad = '%s: mass fraction of %r is %r, model gives %r' % (where, k, gmf.get(k, 0.), w)
                 break
         total = sum(mf.values())
@@ -338,7 +338,7 @@ def _compare(ctx, f, want, where):
         if bad:
             problems.append(bad)
     else:
-        ctx.count('mass_fraction.skipped-zero-mass')
+        quiet or ctx.count('mass_fraction.skipped-zero-mass')
     return problems
 
 
@@ -362,7 +362,8 @@ def _features(ctx, st):
 
 def _run(ctx, prog, T, quiet=False):
     """Execute *prog* in lock step with the shadow interpreter; returns a list of problem dicts
-    {'kind', 'msg', 'step', ...}.  Stops at the first statement that shows a problem."""
+    {'kind', 'msg', 'step', ...}.  Stops at the first statement that shows a problem other than a
+    shared list structure (which is recorded, and the program goes on)."""
     from ..gen.programs import RealMachine, ShadowMachine
     real, sh = RealMachine(T), ShadowMachine()
     dict_structures = set()
@@ -430,7 +431,7 @@ def _run(ctx, prog, T, quiet=False):
         if not [q for q in problems if q['kind'] != 'shared-list']:
             for i, f in enumerate(real.vars):
                 try:
-                    ps = _compare(ctx, f, sh.atoms(i), 'after statement %d (%s), v%d' % (idx, st['op'], i))
+                    ps = _compare(ctx, f, sh.atoms(i), 'after statement %d (%s), v%d' % (idx, st['op'], i), quiet)
                 except ContractBroken as exc:
                     ps = ['after statement %d (%s), v%d: contract violated inside the library: %s'
                           % (idx, st['op'], i, _contract_text(exc))]
